@@ -8,6 +8,8 @@ def cmpKeys (kind : Nat) (a b : Int) : Int :=
   | 1 => b - a
   | 2 => if a / 2 < b / 2 then -1 else if a / 2 > b / 2 then 1 else 0
   | 3 => 0
+  | 5 => a / 16 - b / 16
+  | 6 => a % 16 - b % 16
   | _ => if a < b then -2147483648 else if a > b then 2147483647 else 0
 
 def ints? (s : String) : Option (List Int) :=
@@ -22,11 +24,154 @@ def randRStream : Nat → Nat → List Int
   | 0, _ => []
   | n + 1, seed => let r := randR seed; r.2 :: randRStream n r.1
 
+def pairLe (x y : Int × Nat) : Bool := x.1 < y.1 || (x.1 == y.1 && x.2 ≤ y.2)
+
+def showElems (withIdx : Bool) (out : List (Int × Nat)) : String :=
+  if out.isEmpty then "-" else
+    ",".intercalate (out.map fun e => if withIdx then toString e.1 ++ "." ++ toString e.2 else toString e.1)
+
+/-- run-length form of a key sequence -/
+def rleLine (ks : List Int) : String :=
+  if ks.isEmpty then "-" else
+    ",".intercalate ((ks.splitBy (· == ·)).map fun g => toString (g.headD 0) ++ "*" ++ toString g.length)
+
+/-- the generated arrays of the op `qsg` (harness: `qsg_key`) -/
+def qsgKey (shape i n m seed : Nat) : Int :=
+  match shape with
+  | 0 => ((((i * 2654435761 + seed * 40503) % 2 ^ 32) / 65536) % m : Nat)
+  | 1 => (i * m / n : Nat)
+  | 2 => ((n - 1 - i) * m / n : Nat)
+  | 3 => 7
+  | _ => let d := min i (n - 1 - i); let v := d * 2 * m / n; ((if v ≥ m then m - 1 else v) : Nat)
+
+/-- above this length the driver does not execute `qsort` (quadratic on lists) but prints the
+ordered key sequence that `qsort_perm` + `qsort_sorted` (`qsort_keys_unique`) prescribe -/
+def qsgModelMax : Nat := 600
+
+def bsShow (kind : Nat) (key : Int) (keys : List Int) : String :=
+  match bsearch (cmpKeys kind) key keys with
+  | none => "fault"
+  | some none => "null"
+  | some (some i) => let r := equalRun (cmpKeys kind) key keys i; "found " ++ toString r.1 ++ ".." ++ toString r.2
+
+def ctypeBits (c : Int) : Nat :=
+  (if isspace c then 1 else 0) + (if isdigit c then 2 else 0) + (if isalpha c then 4 else 0) +
+  (if isupper c then 8 else 0) + (if isxdigit c then 16 else 0)
+
+def premainLine : String :=
+  let rs := randStream 16 randInit
+  let mem (t : String) : List Byte := t.toUTF8.toList.map (fun b => BitVec.ofNat 8 b.toNat) ++ [0#8]
+  let keys : List Int := [5, 1, 4, 1, 5, 9, 2, 6, 5]
+  let cmp : (Int × Nat) → (Int × Nat) → Int := fun x y => x.1 - y.1
+  let sorted := (qsort cmp (rs.drop 3) keys.zipIdx).map (·.1)
+  let bs (key : Int) : String :=
+    match sorted with
+    | none => "fault"
+    | some out =>
+      match bsearch (fun (k : Int) (e : Int × Nat) => k - e.1) key out with
+      | some (some i) => "found(" ++ toString (out.getD i (0, 0)).1 ++ ")"
+      | some none => "null"
+      | none => "fault"
+  "seed0 " ++ toString randInit ++ " rand " ++ " ".intercalate ((rs.take 3).map toString) ++
+  " strtol " ++ (match strtolE 64 (mem " \t-0x7fZ") 0 with | some (v, e, _) => hex64 v ++ " " ++ toString e | none => "fault") ++
+  " strtoull " ++ (match strtoullE 64 (mem "18446744073709551616") 10 with
+                   | some (v, _, err) => hexOfNat 16 v ++ " " ++ (if err = 0 then "0" else errName err) | none => "fault") ++
+  " qsort " ++ (match sorted with | some out => showElems true (canonLex cmp pairLe out) | none => "fault") ++
+  " bsearch " ++ bs 5 ++ " " ++ bs 3 ++ " " ++ bs 9
+
+def stRun (fn : String) (base : Nat) (mem : List Byte) : Option String :=
+  let sg (r : Option (Int × Nat × Nat)) : String :=
+    match r with
+    | some (v, e, err) => hex64 v ++ " " ++ toString e ++ " " ++ errName err
+    | none => "fault"
+  let us (r : Option (Nat × Nat × Nat)) : String :=
+    match r with
+    | some (v, e, err) => hexOfNat 16 v ++ " " ++ toString e ++ " " ++ errName err
+    | none => "fault"
+  match fn with
+  | "l" => some (sg (strtolE 64 mem base))
+  | "ul" => some (us (strtoulE 64 mem base))
+  | "ll" => some (sg (strtollE 64 mem base))
+  | "ull" => some (us (strtoullE 64 mem base))
+  | "imax" => some (sg (strtoimaxE 64 mem base))
+  | "umax" => some (us (strtoumaxE 64 mem base))
+  | "q" => some (sg (strtoqE 64 mem base))
+  | "uq" => some (us (strtouqE 64 mem base))
+  | _ => none
+
 def stepLine (_ : Unit) (line : String) : Unit × String :=
   let r : Option String :=
     match words line with
     | ["reset"] => some "ok"
     | ["widths"] => some "64 64 64 32"
+    | ["consts"] => some ((if randStateBits ≥ 32 then "rand-state>=32u" else "rand-state " ++ toString randStateBits ++ "u") ++ " ERANGE " ++ toString ERANGE ++ " EINVAL " ++ toString EINVAL)
+    | ["ctype"] => some (String.join ((List.range 384).map fun (i : Nat) => hexOfNat 2 (ctypeBits (Int.ofNat i - 128))))
+    | ["premain", _] => some premainLine
+    | ["stx", _, _, _] => some "returns"
+    | ["stL", fn, base, pre, unit, count, tail] => do
+        let base ← base.toNat?
+        let pre ← parseBytes? pre
+        let unit ← parseBytes? unit
+        let count ← count.toNat?
+        let tail ← parseBytes? tail
+        stRun fn base (pre ++ (List.replicate count unit).flatten ++ tail ++ [0#8])
+    | ["qsg", _, kind, seed, n, shape, m] => do
+        let kind ← kind.toNat?
+        let seed ← seed.toNat?
+        let n ← n.toNat?
+        let shape ← shape.toNat?
+        let m ← m.toNat?
+        let keys : List Int := (List.range n).map fun i => qsgKey shape i n m seed
+        let cmpK := cmpKeys kind
+        if n ≤ qsgModelMax then
+          let cmp : (Int × Nat) → (Int × Nat) → Int := fun x y => cmpK x.1 y.1
+          match qsort cmp (randStream (n + 1) (seed % 2 ^ 32)) keys.zipIdx with
+          | none => pure "fault"
+          | some (out, _) => pure (toString n ++ " " ++ rleLine (canonLex cmpK (fun a b => decide (a ≤ b)) (out.map (·.1))))
+        else
+          pure (toString n ++ " " ++ rleLine (keys.mergeSort fun a b => cmpK a b < 0 || (cmpK a b == 0 && a ≤ b)))
+    | ["atL", fn, pre, unit, count, tail] => do
+        let pre ← parseBytes? pre
+        let unit ← parseBytes? unit
+        let count ← count.toNat?
+        let tail ← parseBytes? tail
+        let mem := pre ++ (List.replicate count unit).flatten ++ tail ++ [0#8]
+        match fn with
+        | "l" => pure (match atol 64 mem with | some v => hex64 v | none => "fault")
+        | "i" => pure (match atoi 64 32 mem with | some v => hex64 v | none => "fault")
+        | "ll" => pure (match atoll 64 mem with | some v => hex64 v | none => "fault")
+        | _ => none
+    | ["qsr", esize, seed, kinds, keys] => do
+        let esize ← esize.toNat?
+        let seed ← seed.toNat?
+        let kinds ← ints? kinds
+        let keys ← ints? keys
+        let n := keys.length
+        let step (st : Option (List (Int × Nat) × List Int × List String)) (kind : Int) :=
+          match st with
+          | none => none
+          | some (a, rs, acc) =>
+            let cmp : (Int × Nat) → (Int × Nat) → Int := fun x y => cmpKeys kind.toNat x.1 y.1
+            match qsort cmp rs a with
+            | none => none
+            | some (out, rs') =>
+              some (out, rs', acc ++ [showElems (esize > 1) (canonLex cmp pairLe (out.map fun e => (e.1, if esize > 1 then e.2 else 0)))])
+        match kinds.foldl step (some (keys.zipIdx, randStream ((n + 1) * kinds.length) (seed % 2 ^ 32), [])) with
+        | none => pure "fault"
+        | some (out, _, acc) =>
+          let kind := (kinds.getLast?.getD 0).toNat
+          let mx := keys.foldl max 0
+          let f := if kinds.isEmpty then "" else
+            String.join ((List.range (mx + 2).toNat).map fun key =>
+              match bsearch (fun (k : Int) (e : Int × Nat) => cmpKeys kind k e.1) (Int.ofNat key) out with
+              | some (some _) => "y" | some none => "n" | none => "F")
+          pure ("|".intercalate acc ++ " " ++ (if f.isEmpty then "-" else f))
+    | ["bsa", _, kind, idx, keys] => do
+        let kind ← kind.toNat?
+        let idx ← idx.toNat?
+        let keys ← ints? keys
+        let key ← keys[idx]?
+        pure (bsShow kind key keys)
     | ["st", fn, base, t] => do
         let base ← base.toNat?
         let t ← parseBytes? t
@@ -54,7 +199,11 @@ def stepLine (_ : Unit) (line : String) : Unit × String :=
         let mem := t ++ [0#8]
         match fn with
         | "l" => pure (match atol 64 mem with | some v => hex64 v | none => "fault")
-        | "i" => pure (match atoi 64 32 mem with | some v => hexOfNat 8 (v % 2 ^ 32).toNat | none => "fault")
+        | "i" =>
+          -- outside `int` the call is undefined in ISO 7.22.1.2: the value is not part of the observable
+          let dv := Spec.decimalValue t
+          if dv < -(2 ^ 31) ∨ dv ≥ 2 ^ 31 then pure "unrepresentable"
+          else pure (match atoi 64 32 mem with | some v => hexOfNat 8 (v % 2 ^ 32).toNat | none => "fault")
         | "ll" => pure (match atoll 64 mem with | some v => hex64 v | none => "fault")
         | _ => none
     | ["rndr", seed, n] => do
@@ -77,18 +226,15 @@ def stepLine (_ : Unit) (line : String) : Unit × String :=
         match qsort cmp (randStream (a.length + 1) (seed % 2 ^ 32)) a with
         | none => pure "fault"
         | some (out, _) =>
-          pure (if out.isEmpty then "-" else
-            ",".intercalate (out.map fun e => if esize > 1 then toString e.1 ++ "." ++ toString e.2 else toString e.1))
+          -- canonical form: the arrangement inside a run of equal elements is not fixed by the property
+          pure (showElems (esize > 1) (canonLex cmp pairLe (out.map fun e => (e.1, if esize > 1 then e.2 else 0))))
     | [bd, _, kind, key, keys] => do
         let kind ← kind.toNat?
         let key ← key.toInt?
         let keys ← ints? keys
         match bd with
         | "bs" =>
-          match bsearch (cmpKeys kind) key keys with
-          | none => pure "fault"
-          | some none => pure "null"
-          | some (some i) => pure (toString i)
+          pure (bsShow kind key keys)
         | "ub" => pure (match upperBound (cmpKeys kind) key keys with | some i => toString i | none => "fault")
         | "lb" => pure (match lowerBound (cmpKeys kind) key keys with | some i => toString i | none => "fault")
         | _ => none
